@@ -135,11 +135,19 @@ def run_shard(spec, ctx):
                 eval_cell(a5, geo, c, r, 'enum', ctx)
         ctx.sample({'cell': c, 'r': r, 'ring_segments_1': a5.cell_to_boundary(c, {'segments': 1})})
         return
+    from rv import branch
+    bpts = branch.hostile_points(a5, rnd, 120, 100, 60)
+    ctx.counters['branch_boundary_points'] = len(bpts)
     for n in range(spec['n']):
-        kind = ('antimeridian', 'polar', 'frame', 'pattern', 'edge', 'meridian87', 'polar_antimeridian', 'equator')[n % 8]
+        kind = ('antimeridian', 'polar', 'frame', 'pattern', 'edge', 'meridian87', 'polar_antimeridian', 'equator', 'branch')[n % 9]
         r = rnd.randint(4, 29)
         try:
-            if kind == 'antimeridian':
+            if kind == 'branch':
+                if not bpts:
+                    continue
+                r = rnd.choice((29, 28, 27, 26, 25, rnd.randint(4, 24)))
+                c = a5.lonlat_to_cell(branch.near(rnd, bpts[rnd.randrange(len(bpts))][0], geo.width(r)), r)
+            elif kind == 'antimeridian':
                 lat = math.degrees(math.asin(rnd.uniform(-1, 1)))
                 d = math.degrees(geo.width(r)) * rnd.uniform(-0.6, 0.6) / max(0.05, math.cos(math.radians(lat)))
                 c = a5.lonlat_to_cell((rnd.choice((180.0, -180.0)) + d, lat), r)
